@@ -99,7 +99,22 @@ def _(E, m, a, c0):
     if op == 'last': return opt(xs[-1]) if xs else opt()
     if op == 'nth':
         n = E.concretize(a[1], 0, len(xs) + 1); return opt(xs[n]) if n < len(xs) else opt()
-    raise Missing('Iterator::' + op)
+    # min / max over integers or Option<integer> (derived Ord: None < Some(_)); std: `min` keeps the first of equal minima, `max` the last of equal maxima
+    def key(x):
+        if z3.is_expr(x): return (1, x)
+        if isinstance(x, Adt) and x.ty == 'Option' and (x.variant == 'None' or z3.is_expr(x.fields[0])): return (0, None) if x.variant == 'None' else (1, x.fields[0])
+        raise Missing('Iterator::' + op + ' over ' + repr(x)[:60])
+    def less(p, q):          # strict order on keys, forking on symbolic integers
+        if p[0] != q[0]: return p[0] < q[0]
+        if p[0] == 0: return False
+        return E.branch(p[1] < q[1])
+    if not xs: return opt()
+    best = xs[0]
+    for x in xs[1:]:
+        if op == 'min':
+            if less(key(x), key(best)): best = x
+        elif not less(key(x), key(best)): best = x
+    return opt(best)
 @pfirst(IT + r'fold')
 def _(E, m, a, c0):
     acc = a[1]
@@ -114,19 +129,37 @@ def _(E, m, a, c0):
     xs = rest(E, a[0])
     mm = re.search(r'collect::<(.*)>$', c0) or re.search(r'^<(.*) as FromIterator', c0)
     target = mm.group(1) if mm else ''
+    def build(items):
+        """the collected container: a HashSet / HashMap target deduplicates by the real key equality (association-list model)"""
+        inner = re.sub(r'^(?:std::result::)?(?:Result|Option)<', '', target)
+        if re.match(r'(?:std::collections::)?(?:hash_set::)?HashSet<', inner):
+            from .hashmap import hm, find, entries_of
+            c = Cell(hm()); mr = Ref(c)
+            for k in items:
+                k = E.deref(k) if isinstance(k, Ref) else k
+                if find(E, mr, k) is None: E.wr(mr, hm(entries_of(E.deref(mr)) + [Tup([k, UNIT])]))
+            return c.v
+        if re.match(r'(?:std::collections::)?(?:hash_map::)?HashMap<', inner):
+            from .hashmap import hm, find, entries_of
+            c = Cell(hm()); mr = Ref(c)
+            for kv in items:
+                k, v = kv.fields; i = find(E, mr, k); es = entries_of(E.deref(mr))
+                E.wr(mr, hm(es + [Tup([k, v])]) if i is None else hm(es[:i] + [Tup([es[i].fields[0], v])] + es[i+1:]))
+            return c.v
+        return Seq(items)
     if target.startswith('Result<') or target.startswith('std::result::Result<') or (not target and xs and isinstance(xs[0], Adt) and xs[0].ty == 'Result'):
         out = []
         for x in xs:
             if x.variant == 'Err': return x
             out.append(x.fields[0])
-        return ok(Seq(out))
+        return ok(build(out))
     if target.startswith('Option<'):
         out = []
         for x in xs:
             if x.variant == 'None': return x
             out.append(x.fields[0])
-        return opt(Seq(out))
-    return Seq(xs)
+        return opt(build(out))
+    return build(xs)
 @pfirst(r'<(?:&mut )?(?:impl Iterator<.*>|I|It|T) as Iterator>::next')
 def _(E, m, a, c0):
     it = E.deref(a[0])
